@@ -185,6 +185,11 @@ def main():
     if vacuous and rc == 0:
         out_lines.append("CHECKER-ERROR canary verified: %s" % ", ".join(vacuous))
         rc = 3
+    dc = selftest.get("diffcheck") or {}
+    if rc == 0 and (dc.get("false") or dc.get("error") or dc.get("canary_rejected") is False):
+        out_lines.append("CHECKER-ERROR differential cross-check: a contract clause is false on a real run (%s)" % (
+            dc.get("error") or [x.get("clause") for x in dc.get("false", [])][:3] or "canary accepted"))
+        rc = 3
     survived = [m for m, st in selftest.get("mutants", {}).items() if st not in ("KILLED", "KILLED-other")]
     if survived and rc == 0:
         out_lines.append("CHECKER-ERROR seeded mutants not killed (contract too weak or engine unsound): %s" % ", ".join(survived))
@@ -215,6 +220,7 @@ def main():
             "canaries": canaries,
             "selftest_mutants": selftest.get("mutants", {}),
             "findings_native": selftest.get("findings_native", {}),
+            "diffcheck": {k: v for k, v in (selftest.get("diffcheck") or {}).items() if k != "false"} or None,
             "known_findings": sorted(printed_known),
             "conditioned_on": sorted(set(spec.get("conditioned_on", [])) | printed_known),
             "discharged_under_negated_witness": sorted(set(o["norm"] + " [" + o["status"][6:] + "]" for o in conditioned)),
